@@ -179,19 +179,15 @@ Proof.
     + rewrite allnoref_cons, A1, IH by assumption. reflexivity.
 Qed.
 
-Lemma allnoref_ddel : forall k d, allnoref d = true -> allnoref (ddel k d) = true.
-Proof.
-  induction d as [|[k' v'] d IH]; intros A; simpl ddel; [reflexivity|].
-  rewrite allnoref_cons in A. apply andb_true_iff in A as [A1 A2]. destruct (String.eqb k k'); [assumption|].
-  rewrite allnoref_cons, A1, IH by assumption. reflexivity.
-Qed.
-
 Lemma allnoref_filter : forall f d, allnoref d = true -> allnoref (filter f d) = true.
 Proof.
   induction d as [|[k v] d IH]; intros A; simpl filter; [reflexivity|].
   rewrite allnoref_cons in A. apply andb_true_iff in A as [A1 A2].
   destruct (f (k, v)); [rewrite allnoref_cons, A1, IH by assumption; reflexivity | now apply IH].
 Qed.
+
+Lemma allnoref_ddel : forall k d, allnoref d = true -> allnoref (ddel k d) = true.
+Proof. intros. now apply allnoref_filter. Qed.
 
 Lemma allnoref_dupdate : forall u d, allnoref d = true -> allnoref u = true -> allnoref (dupdate d u) = true.
 Proof.
@@ -201,8 +197,10 @@ Qed.
 
 (* ================================================================== (a) the store is never written (after the repair) *)
 
-(* Invariant of the normalizer state: the cached Datum documents are private trees. *)
-Definition inv (n : nstate) : Prop := forallb (fun p => noref (snd p)) (datum_cache n) = true.
+(* Invariant of the normalizer state: the cached Datum documents are private trees (dicts). *)
+Definition is_dict (v : val) : bool := match v with VDict _ => true | _ => false end.
+Definition priv (p : val * val) : bool := noref (snd p) && is_dict (snd p).
+Definition inv (n : nstate) : Prop := forallb priv (datum_cache n) = true.
 
 (* [keeps m Q]: from a state satisfying the invariant, [m] leaves the store exactly as it
    was, re-establishes the invariant, and its result (if any) satisfies Q - also when it raises. *)
@@ -299,30 +297,30 @@ Lemma inv_with_sres_cache : forall n t, inv n -> inv (with_sres_cache n t). Proo
 Lemma inv_with_emitted : forall n t, inv n -> inv (with_emitted n t). Proof. auto. Qed.
 Lemma inv_with_keys : forall n i e, inv n -> inv (with_keys n i e). Proof. auto. Qed.
 
-Lemma cache_vdel : forall k c, forallb (fun p : val * val => noref (snd p)) c = true ->
-  forallb (fun p : val * val => noref (snd p)) (vdel k c) = true.
+Lemma cache_vdel : forall k c, forallb priv c = true -> forallb priv (vdel k c) = true.
 Proof.
   induction c as [|[k' v'] c IH]; simpl; intros H; [reflexivity|].
   apply andb_true_iff in H as [H1 H2]. destruct (atom_eqb k k'); [assumption|].
   simpl. now rewrite H1, IH.
 Qed.
-Lemma cache_vset : forall k v c, forallb (fun p : val * val => noref (snd p)) c = true -> noref v = true ->
-  forallb (fun p : val * val => noref (snd p)) (vset k v c) = true.
+Lemma cache_vset : forall k v c, forallb priv c = true -> noref v = true -> is_dict v = true ->
+  forallb priv (vset k v c) = true.
 Proof.
-  induction c as [|[k' v'] c IH]; simpl; intros H N.
-  - now rewrite N.
+  induction c as [|[k' v'] c IH]; simpl; intros H N Dv.
+  - unfold priv; simpl. now rewrite N, Dv.
   - apply andb_true_iff in H as [H1 H2]. destruct (atom_eqb k k'); simpl.
-    + now rewrite N, H2.
+    + unfold priv at 1; simpl. now rewrite N, Dv, H2.
     + now rewrite H1, IH.
 Qed.
-Lemma cache_vget : forall k c v, forallb (fun p : val * val => noref (snd p)) c = true ->
-  vget k c = Some v -> noref v = true.
+Lemma cache_vget : forall k c v, forallb priv c = true ->
+  vget k c = Some v -> noref v = true /\ is_dict v = true.
 Proof.
   induction c as [|[k' v'] c IH]; simpl; intros v H G; [discriminate|].
-  apply andb_true_iff in H as [H1 H2]. destruct (atom_eqb k k'); [inversion G; now subst | eauto].
+  apply andb_true_iff in H as [H1 H2]. destruct (atom_eqb k k'); [|eauto].
+  inversion G; subst. unfold priv in H1; simpl in H1. now apply andb_true_iff in H1.
 Qed.
 
-Lemma keeps_pop_datum : forall id, keeps (pop_datum id) (fun od => forall d, od = Some d -> noref d = true).
+Lemma keeps_pop_datum : forall id, keeps (pop_datum id) (fun od => forall d, od = Some d -> noref d = true /\ is_dict d = true).
 Proof.
   intros id. unfold pop_datum. kb; [apply keeps_lift; intros; exact I|].
   kb; [apply keeps_get_ns|]. destruct (vget a (datum_cache a0)) eqn:G.
@@ -377,12 +375,17 @@ Proof. intros doc. unfold h_stream_datum. kb; [apply keeps_shallow|]. apply keep
 
 Tactic Notation "kb" "as" ident(a) ident(H) := eapply keeps_bind; [ | intros a H ].
 
+Lemma keeps_stop_item : forall r, keeps (stop_item r) (fun _ => True).
+Proof.
+  intros [[[datum_id data_key] desc_uid] seq_num]. unfold stop_item.
+  kb as od Hod; [apply keeps_pop_datum|]. destruct od as [dd|]; [|ktriv].
+  destruct (truthy dd); [|ktriv]. kb; [apply keeps_convert_datum; apply (Hod dd eq_refl)|]. apply keeps_emit_converted.
+Qed.
+
 Lemma keeps_h_stop : forall doc, keeps (h_stop doc) (fun _ => True).
 Proof.
   intros doc. unfold h_stop. kb; [apply keeps_shallow|]. kb; [apply keeps_get_ns|].
-  kb; [|apply keeps_emit]. apply keeps_forM. intros [[[datum_id data_key] desc_uid] seq_num].
-  kb as od Hod; [apply keeps_pop_datum|]. destruct od as [dd|]; [|ktriv].
-  destruct (truthy dd); [|ktriv]. kb; [apply keeps_convert_datum; auto|]. apply keeps_emit_converted.
+  kb; [|apply keeps_emit]. apply keeps_forM. apply keeps_stop_item.
 Qed.
 
 Lemma keeps_h_descriptor : forall doc, keeps (h_descriptor doc) (fun _ => True).
@@ -396,19 +399,24 @@ Proof.
   apply keeps_emit.
 Qed.
 
+Lemma keeps_ext_item : forall d du sq kv, keeps (ext_item d du sq kv) (fun _ => True).
+Proof.
+  intros d du sq [data_key datum_id]. unfold ext_item.
+  kb as od Hod; [apply keeps_pop_datum|]. kb.
+  { instantiate (1 := fun _ => True). destruct (_ && _); ktriv. }
+  destruct od as [dd|].
+  - destruct (truthy dd).
+    + kb; [apply keeps_convert_datum; apply (Hod dd eq_refl)|]. apply keeps_emit_converted.
+    + kb as n Hn; [apply keeps_get_ns|]. apply keeps_put_ns. now apply inv_with_ext_refs.
+  - kb as n Hn; [apply keeps_get_ns|]. apply keeps_put_ns. now apply inv_with_ext_refs.
+Qed.
+
 Lemma keeps_h_event_tree : forall c, keeps (h_event_tree c) (fun _ => True).
 Proof.
   intros c. unfold h_event_tree. kb; [apply keeps_lift; intros; exact I|].
   kb; [apply keeps_get_ns|]. kb as sp Hsp; [apply keeps_lift; intros; exact I|].
   destruct sp as [[[ev ext] desc_uid] seq_num]. kb; [apply keeps_emit|].
-  apply keeps_forM. intros [data_key datum_id].
-  kb as od Hod; [apply keeps_pop_datum|]. kb.
-  { instantiate (1 := fun _ => True). destruct (_ && _); ktriv. }
-  destruct od as [dd|].
-  - destruct (truthy dd).
-    + kb; [apply keeps_convert_datum; auto|]. apply keeps_emit_converted.
-    + kb as n Hn; [apply keeps_get_ns|]. apply keeps_put_ns. now apply inv_with_ext_refs.
-  - kb as n Hn; [apply keeps_get_ns|]. apply keeps_put_ns. now apply inv_with_ext_refs.
+  apply keeps_forM. apply keeps_ext_item.
 Qed.
 
 Lemma keeps_h_event : forall doc, keeps (h_event doc) (fun _ => True).
@@ -474,9 +482,10 @@ Qed.
 
 Lemma keeps_h_datum_owned : forall c, noref c = true -> keeps (h_datum_owned c) (fun _ => True).
 Proof.
-  intros c N. unfold h_datum_owned. kb; [apply keeps_lift; intros; exact I|].
+  intros c N. unfold h_datum_owned.
+  kb as d Hd; [apply keeps_lift; intros a E; exact E|].
   kb; [apply keeps_lift; intros; exact I|]. kb as n Hn; [apply keeps_get_ns|].
-  apply keeps_put_ns. unfold inv; cbn. now apply cache_vset.
+  apply keeps_put_ns. unfold inv; cbn. apply cache_vset; auto. destruct c; try discriminate; reflexivity.
 Qed.
 
 Lemma keeps_h_datum_deep : forall doc, keeps (h_datum Deep doc) (fun _ => True).
@@ -642,3 +651,169 @@ Section BackupProofs.
     intros maxlen nb b docs raises Hb. exact (cb_run_buffering maxlen nb b docs raises [] Hb).
   Qed.
 End BackupProofs.
+
+(* ================================================================== the caller's documents read back unchanged *)
+
+Lemma rb_kvs_impl : forall (rb rb' : val -> option val) kv r,
+  Forall (fun p => forall x, rb (snd p) = Some x -> rb' (snd p) = Some x) kv ->
+  rb_kvs rb kv = Some r -> rb_kvs rb' kv = Some r.
+Proof.
+  intros rb rb' kv r H; revert r. induction H as [|[k v] kv Hx Hkv IH]; intros r E; simpl in *; [assumption|].
+  destruct (rb v) as [v'|] eqn:Ev; [|discriminate]. destruct (rb_kvs rb kv) as [r'|] eqn:Er; [|discriminate].
+  rewrite (Hx _ eq_refl), (IH _ eq_refl). assumption.
+Qed.
+
+Lemma rb_list_impl : forall (rb rb' : val -> option val) l r,
+  Forall (fun v => forall x, rb v = Some x -> rb' v = Some x) l ->
+  rb_list rb l = Some r -> rb_list rb' l = Some r.
+Proof.
+  intros rb rb' l r H; revert r. induction H as [|v l Hx Hl IH]; intros r E; simpl in *; [assumption|].
+  destruct (rb v) as [v'|] eqn:Ev; [|discriminate]. destruct (rb_list rb l) as [r'|] eqn:Er; [|discriminate].
+  rewrite (Hx _ eq_refl), (IH _ eq_refl). assumption.
+Qed.
+
+(* more fuel and a longer store do not change a snapshot *)
+Lemma readback_mono : forall f s v x, readback f s v = Some x ->
+  forall f' e, f <= f' -> readback f' (s ++ e) v = Some x.
+Proof.
+  induction f as [|f IHf]; intros s v; induction v using val_rect'; intros x E f' e Hf;
+    try (rewrite readback_atom in * by reflexivity; assumption).
+  - rewrite readback_dict in *. destruct (rb_kvs (readback 0 s) kv) as [r|] eqn:Er; [|discriminate].
+    erewrite rb_kvs_impl; [exact E | | exact Er].
+    eapply Forall_impl; [|exact H]. intros p Hp y Ey. eapply Hp; eauto.
+  - rewrite readback_list in *. destruct (rb_list (readback 0 s) l) as [r|] eqn:Er; [|discriminate].
+    erewrite rb_list_impl; [exact E | | exact Er].
+    eapply Forall_impl; [|exact H]. intros p Hp y Ey. eapply Hp; eauto.
+  - rewrite readback_ref0 in E. discriminate.
+  - rewrite readback_dict in *. destruct (rb_kvs (readback (S f) s) kv) as [r|] eqn:Er; [|discriminate].
+    erewrite rb_kvs_impl; [exact E | | exact Er].
+    eapply Forall_impl; [|exact H]. intros p Hp y Ey. eapply Hp; eauto.
+  - rewrite readback_list in *. destruct (rb_list (readback (S f) s) l) as [r|] eqn:Er; [|discriminate].
+    erewrite rb_list_impl; [exact E | | exact Er].
+    eapply Forall_impl; [|exact H]. intros p Hp y Ey. eapply Hp; eauto.
+  - rewrite readback_ref in E. destruct (nth_error s o) as [ob|] eqn:En; [|discriminate].
+    destruct f' as [|f']; [lia|]. rewrite readback_ref.
+    rewrite nth_error_app1 by (apply nth_error_Some; congruence). rewrite En.
+    eapply IHf; eauto. lia.
+Qed.
+
+Fixpoint alloc_kvs (s : store) (l : list (string * val)) : store * list (string * val) :=
+  match l with
+  | [] => (s, [])
+  | (k, x) :: l' =>
+      let '(s1, x') := alloc s x in
+      let '(s2, r) := alloc_kvs s1 l' in (s2, (k, x') :: r)
+  end.
+Fixpoint alloc_list (s : store) (l : list val) : store * list val :=
+  match l with
+  | [] => (s, [])
+  | x :: l' =>
+      let '(s1, x') := alloc s x in
+      let '(s2, r) := alloc_list s1 l' in (s2, x' :: r)
+  end.
+
+Lemma alloc_dict : forall s kv,
+  alloc s (VDict kv) = let '(s', kv') := alloc_kvs s kv in (s' ++ [VDict kv'], VRef (length s')).
+Proof.
+  intros s kv. simpl.
+  match goal with |- (let '(_, _) := ?F s kv in _) = _ => assert (G : forall l s0, F s0 l = alloc_kvs s0 l) end.
+  { induction l as [|[k x] l IH]; intros s0; simpl; [reflexivity|].
+    destruct (alloc s0 x) as [s1 x']. rewrite IH. reflexivity. }
+  rewrite G. reflexivity.
+Qed.
+
+Lemma alloc_vlist : forall s l,
+  alloc s (VList l) = let '(s', l') := alloc_list s l in (s' ++ [VList l'], VRef (length s')).
+Proof.
+  intros s l. simpl.
+  match goal with |- (let '(_, _) := ?F s l in _) = _ => assert (G : forall l0 s0, F s0 l0 = alloc_list s0 l0) end.
+  { induction l0 as [|x l0 IH]; intros s0; simpl; [reflexivity|].
+    destruct (alloc s0 x) as [s1 x']. rewrite IH. reflexivity. }
+  rewrite G. reflexivity.
+Qed.
+
+Definition alloc_ok (v : val) : Prop :=
+  noref v = true -> forall s s' r, alloc s v = (s', r) ->
+  (exists e, s' = s ++ e) /\ readback (length s') s' r = Some v.
+
+Lemma alloc_kvs_spec : forall kv, Forall (fun p => alloc_ok (snd p)) kv -> allnoref kv = true ->
+  forall s s1 kv', alloc_kvs s kv = (s1, kv') ->
+  (exists e, s1 = s ++ e) /\ rb_kvs (readback (length s1) s1) kv' = Some kv.
+Proof.
+  intros kv H; induction H as [|[k x] kv Hx Hkv IH]; intros N s s1 kv' Ek; simpl in Ek.
+  - inversion Ek; subst. split; [exists []; now rewrite app_nil_r | reflexivity].
+  - rewrite allnoref_cons in N. apply andb_true_iff in N as [N1 N2].
+    destruct (alloc s x) as [sa x'] eqn:Ea. destruct (alloc_kvs sa kv) as [sb r] eqn:Eb.
+    inversion Ek; subst s1 kv'; clear Ek.
+    destruct (Hx N1 _ _ _ Ea) as [[e1 ->] R1]. destruct (IH N2 _ _ _ Eb) as [[e2 ->] R2].
+    split; [exists (e1 ++ e2); now rewrite app_assoc|]. simpl.
+    rewrite (readback_mono _ _ _ _ R1 (length ((s ++ e1) ++ e2)) e2) by (rewrite !app_length; lia).
+    rewrite R2. reflexivity.
+Qed.
+
+Lemma alloc_list_spec : forall l, Forall alloc_ok l -> forallb noref l = true ->
+  forall s s1 l', alloc_list s l = (s1, l') ->
+  (exists e, s1 = s ++ e) /\ rb_list (readback (length s1) s1) l' = Some l.
+Proof.
+  intros l H; induction H as [|x l Hx Hl IH]; intros N s s1 l' Ek; simpl in Ek.
+  - inversion Ek; subst. split; [exists []; now rewrite app_nil_r | reflexivity].
+  - simpl in N. apply andb_true_iff in N as [N1 N2].
+    destruct (alloc s x) as [sa x'] eqn:Ea. destruct (alloc_list sa l) as [sb r] eqn:Eb.
+    inversion Ek; subst s1 l'; clear Ek.
+    destruct (Hx N1 _ _ _ Ea) as [[e1 ->] R1]. destruct (IH N2 _ _ _ Eb) as [[e2 ->] R2].
+    split; [exists (e1 ++ e2); now rewrite app_assoc|]. simpl.
+    rewrite (readback_mono _ _ _ _ R1 (length ((s ++ e1) ++ e2)) e2) by (rewrite !app_length; lia).
+    rewrite R2. reflexivity.
+Qed.
+
+(* placing a tree in the store and reading it back gives the tree *)
+Lemma alloc_spec : forall v, alloc_ok v.
+Proof.
+  induction v using val_rect'; intros N s0 s' r E;
+    try (simpl in E; inversion E; subst; split; [exists []; now rewrite app_nil_r | apply readback_atom; reflexivity]).
+  - rewrite alloc_dict in E. destruct (alloc_kvs s0 kv) as [s1 kv'] eqn:Ek. inversion E; subst s' r; clear E.
+    rewrite noref_dict in N.
+    destruct (alloc_kvs_spec kv H N _ _ _ Ek) as [[e ->] R].
+    split; [exists (e ++ [VDict kv']); now rewrite app_assoc|].
+    rewrite app_length. simpl length. rewrite Nat.add_1_r, readback_ref.
+    rewrite nth_error_app2 by lia. rewrite Nat.sub_diag. simpl nth_error. cbv iota beta.
+    rewrite readback_dict.
+    erewrite rb_kvs_impl; [reflexivity | | exact R].
+    apply Forall_forall. intros p _ y Ey. eapply readback_mono; eauto.
+  - rewrite alloc_vlist in E. destruct (alloc_list s0 l) as [s1 l'] eqn:Ek. inversion E; subst s' r; clear E.
+    rewrite noref_list in N.
+    destruct (alloc_list_spec l H N _ _ _ Ek) as [[e ->] R].
+    split; [exists (e ++ [VList l']); now rewrite app_assoc|].
+    rewrite app_length. simpl length. rewrite Nat.add_1_r, readback_ref.
+    rewrite nth_error_app2 by lia. rewrite Nat.sub_diag. simpl nth_error. cbv iota beta.
+    rewrite readback_list.
+    erewrite rb_list_impl; [reflexivity | | exact R].
+    apply Forall_forall. intros p _ y Ey. eapply readback_mono; eauto.
+  - discriminate.
+Qed.
+
+Lemma alloc_all_spec : forall vs, Forall (fun v => noref v = true) vs -> forall s s' refs,
+  alloc_all s vs = (s', refs) ->
+  (exists e, s' = s ++ e) /\ map (readback (fuel_of s') s') refs = map Some vs.
+Proof.
+  intros vs H; induction H as [|v vs Hv Hvs IH]; intros s s' refs E; simpl in E.
+  - inversion E; subst. split; [exists []; now rewrite app_nil_r | reflexivity].
+  - destruct (alloc s v) as [s1 r] eqn:Ea. destruct (alloc_all s1 vs) as [s2 rs] eqn:Eb.
+    inversion E; subst s' refs; clear E.
+    destruct (alloc_spec v Hv _ _ _ Ea) as [[e1 ->] R1]. destruct (IH _ _ _ Eb) as [[e2 ->] R2].
+    split; [exists (e1 ++ e2); now rewrite app_assoc|]. cbn [map]. rewrite R2. f_equal.
+    eapply readback_mono; eauto. unfold fuel_of. rewrite !app_length. lia.
+Qed.
+
+(* (a), as observed by the correspondence: documents given as trees are placed in a fresh store,
+   the whole stream is processed, and every document reads back exactly as it was given *)
+Theorem inputs_read_back_unchanged : forall fe docs,
+  Forall (fun d => noref (snd d) = true) docs ->
+  r_after (run Deep fe docs) = map (fun d => Some (snd d)) docs.
+Proof.
+  intros fe docs H. unfold run.
+  destruct (alloc_all [] (map snd docs)) as [s0 refs] eqn:Ea.
+  destruct (run_from Deep 0 (combine (map fst docs) refs) (init_mst s0 fe) []) as [m errs] eqn:Er.
+  cbn [r_after]. apply inputs_never_modified in Er. rewrite Er.
+  apply alloc_all_spec in Ea as [_ R]; [|now apply Forall_map]. rewrite R. now rewrite map_map.
+Qed.
